@@ -23,7 +23,9 @@ facts) on the abstracted fields.  Below:
                                      translated `tlcpIsCompleteMessage` / `dtlcpIsCompleteMessage` compute;
   * `C14_src_enc_roundtrip_*`       ROUND TRIP ON TRANSLATED CODE: `unmarshal (marshal m).bytes` accepts and returns
                                      the fields of `m`, for in-range `m`, whatever the receiver held — composed with
-                                     the decoder ties of Props/C14.lean, C14SrcSmall.lean, C14SrcCH.lean, C14SrcSH.lean.
+                                     the decoder ties of Props/C14.lean, C14SrcSmall.lean, C14SrcCH.lean, C14SrcSH.lean;
+                                     `…_roundtrip_object_*` (tlcp hellos): the decoded object IS `{ m with raw := bytes }`;
+  * `C14_src_enc_no_panic_dtlcp`    no dtlcp marshal (they index slices) panics, for any object.
 
 certificateMsg.marshal / certificateRequestMsg.marshal write the message through a moving window `y := x[k:]`
 of the result; value semantics cannot express that, the translator's alias analysis refuses both, and they stay
@@ -366,6 +368,54 @@ theorem C14_src_enc_roundtrip_clientHello_tlcp (m m0 : clientHelloMsg) (h : m.ra
   obtain ⟨m', e1, e2⟩ := hrt m0 bytes hab
   exact ⟨bytes, m', e, e1, e2⟩
 
+/-! ### the same, at the level of objects: decoding the encoding gives back the object `marshal` left behind -/
+
+/-- the decoder tie's view of a ServerHello object is this file's abstraction -/
+theorem viewT_absSH (m : serverHelloMsg) : Tie.CodecSHModel.viewT m = absSH m := by
+  unfold Tie.CodecSHModel.viewT Tie.CodecSHModel.view Tie.CodecSH.getT absSH
+  simp only [Tie.CodecEncDtlcp.w16_eq]
+  first | rfl | (simp only [Tie.CodecCHModel.w16]; rfl)
+
+theorem fieldsT_absCH (m : clientHelloMsg) : Tie.CodecCHCodec.fieldsT m = absCH m := by
+  have hf : Tie.CodecCHModel.w16 = w16 := funext fun v => (Tie.CodecEncDtlcp.w16_eq v).symm
+  unfold Tie.CodecCHCodec.fieldsT Tie.CodecCHModel.absCH Tie.CodecCHTlcp.viewT absCH
+  simp only [hf, List.map_map]
+  rfl
+
+/-- **ServerHello, round trip on translated code, object level**: decoding what `marshal` returned gives back
+exactly the object `marshal` left behind (every field, and `raw` = the encoding), whatever the receiver held -/
+theorem C14_src_enc_roundtrip_object_serverHello_tlcp (m m0 : serverHelloMsg) (h : m.raw = [])
+    (hw : Spec.Codec.wfServerHello (absSH m) = true) :
+    ∃ bytes, serverHelloMsg.marshal m = ({ m with raw := bytes }, bytes, none) ∧
+      serverHelloMsg.unmarshal m0 bytes = .ok ({ m with raw := bytes }, true) := by
+  obtain ⟨bytes, m', e1, e2, e3, e4⟩ := C14_src_enc_roundtrip_serverHello_tlcp m m0 h hw
+  refine ⟨bytes, e1, ?_⟩
+  rw [e2]
+  rw [viewT_absSH] at e3
+  have := absSH_inj m' m e3
+  cases m'; cases m
+  simp only [serverHelloMsg.mk.injEq, true_and] at this e4 h ⊢
+  subst e4
+  simp only [Except.ok.injEq, Prod.mk.injEq, serverHelloMsg.mk.injEq, true_and, and_true]
+  exact this
+
+/-- **ClientHello, round trip on translated code, object level** -/
+theorem C14_src_enc_roundtrip_object_clientHello_tlcp (m m0 : clientHelloMsg) (h : m.raw = [])
+    (hw : Spec.Codec.wfClientHello .tlcp (absCH m) = true) :
+    ∃ bytes, clientHelloMsg.marshal m = ({ m with raw := bytes }, bytes, none) ∧
+      clientHelloMsg.unmarshal m0 bytes = .ok ({ m with raw := bytes }, true) := by
+  obtain ⟨bytes, m', e1, e2, e3⟩ := C14_src_enc_roundtrip_clientHello_tlcp m m0 h hw
+  refine ⟨bytes, e1, ?_⟩
+  have e4 := C14_src_clientHello_raw_tlcp m0 m' bytes e2
+  rw [e2]
+  rw [fieldsT_absCH] at e3
+  have := absCH_inj m' m e3
+  cases m'; cases m
+  simp only [clientHelloMsg.mk.injEq, true_and] at this e4 h ⊢
+  subst e4
+  simp only [Except.ok.injEq, Prod.mk.injEq, clientHelloMsg.mk.injEq, true_and, and_true]
+  exact this
+
 -- non-vacuity: concrete objects through the translated encoders
 example : (finishedMsg.marshal { verifyData := [1, 2, 3] }).2 = ([20, 0, 0, 3, 1, 2, 3], none) := by decide
 example : (certificateVerifyMsg.marshal { signature := [0x30, 1] }).2 = ([15, 0, 0, 4, 0, 2, 0x30, 1], none) := by decide
@@ -637,6 +687,57 @@ theorem C14_src_enc_roundtrip_clientHello_dtlcp (m m0 : clientHelloMsg) (h : m.r
   obtain ⟨bytes, e, hab⟩ := ha
   obtain ⟨m', e1, e2⟩ := hrt m0 bytes hab
   exact ⟨bytes, m', body, e, e1, hb, e2⟩
+
+/-- no dtlcp marshal panics, for any object (fresh or cached): `Except.ok` always -/
+theorem C14_src_enc_no_panic_dtlcp :
+    (∀ m : finishedMsg, ∃ r, finishedMsg.marshal m = .ok r) ∧
+    (∀ m : certificateVerifyMsg, ∃ r, certificateVerifyMsg.marshal m = .ok r) ∧
+    (∀ m : helloVerifyRequestMsg, ∃ r, helloVerifyRequestMsg.marshal m = .ok r) ∧
+    (∀ m : serverKeyExchangeMsg, ∃ r, serverKeyExchangeMsg.marshal m = .ok r) ∧
+    (∀ m : clientKeyExchangeMsg, ∃ r, clientKeyExchangeMsg.marshal m = .ok r) ∧
+    (∀ m : serverHelloDoneMsg, ∃ r, serverHelloDoneMsg.marshal m = .ok r) ∧
+    (∀ m : serverHelloMsg, ∃ r, serverHelloMsg.marshal m = .ok r) ∧
+    (∀ m : clientHelloMsg, ∃ r, clientHelloMsg.marshal m = .ok r) := by
+  refine ⟨fun m => ?_, fun m => ?_, fun m => ?_, fun m => ?_, fun m => ?_, fun m => ?_, fun m => ?_, fun m => ?_⟩
+  · by_cases h : m.raw = []
+    · obtain ⟨b, e, _⟩ := C14_src_enc_finished_dtlcp m h; exact ⟨_, e⟩
+    · exact ⟨_, C14_src_enc_cached_dtlcp.1 m h⟩
+  · by_cases h : m.raw = []
+    · obtain ⟨b, e, _⟩ := C14_src_enc_certificateVerify_dtlcp m h; exact ⟨_, e⟩
+    · exact ⟨_, C14_src_enc_cached_dtlcp.2.1 m h⟩
+  · by_cases h : m.raw = []
+    · obtain ⟨b, e, _⟩ := C14_src_enc_helloVerifyRequest_dtlcp m h; exact ⟨_, e⟩
+    · exact ⟨_, C14_src_enc_cached_dtlcp.2.2.1 m h⟩
+  · by_cases h : m.raw = []
+    · obtain ⟨b, e, _⟩ := C14_src_enc_serverKeyExchange_dtlcp m h; exact ⟨_, e⟩
+    · exact ⟨_, C14_src_enc_cached_dtlcp.2.2.2.1 m h⟩
+  · by_cases h : m.raw = []
+    · obtain ⟨b, e, _⟩ := C14_src_enc_clientKeyExchange_dtlcp m h; exact ⟨_, e⟩
+    · exact ⟨_, C14_src_enc_cached_dtlcp.2.2.2.2.1 m h⟩
+  · by_cases h : m.raw = []
+    · obtain ⟨b, e, _⟩ := C14_src_enc_serverHelloDone_dtlcp m h; exact ⟨_, e⟩
+    · exact ⟨_, C14_src_enc_cached_dtlcp.2.2.2.2.2.1 m h⟩
+  · by_cases h : m.raw = []
+    · have ha := C14_src_enc_serverHello_dtlcp m h
+      cases ho : Model.CodecDtlcp.encServerHello codesD (hdrView m.messageSeq m.fragmentOffset m.fragmentLength) (absSH m) with
+      | none => rw [ho] at ha; exact ⟨_, ha⟩
+      | some b => rw [ho] at ha; obtain ⟨bs, e, _⟩ := ha; exact ⟨_, e⟩
+    · exact ⟨_, C14_src_enc_cached_dtlcp.2.2.2.2.2.2.1 m h⟩
+  · by_cases h : m.raw = []
+    · have ha := C14_src_enc_clientHello_dtlcp m h
+      cases ho : Model.CodecDtlcp.encClientHello codesD (hdrView m.messageSeq m.fragmentOffset m.fragmentLength) (absCH m) with
+      | none => rw [ho] at ha; exact ⟨_, ha⟩
+      | some b => rw [ho] at ha; obtain ⟨bs, e, _⟩ := ha; exact ⟨_, e⟩
+    · exact ⟨_, C14_src_enc_cached_dtlcp.2.2.2.2.2.2.2 m h⟩
+
+-- non-vacuity: concrete dtlcp objects through the translated encoders
+example : finishedMsg.marshal { verifyData := [1, 2, 3], messageSeq := 5#16 } =
+    .ok ({ raw := [20, 0, 0, 3, 0, 5, 0, 0, 0, 0, 0, 3, 1, 2, 3], verifyData := [1, 2, 3], messageSeq := 5#16 },
+      [20, 0, 0, 3, 0, 5, 0, 0, 0, 0, 0, 3, 1, 2, 3], none) := rfl
+example : helloVerifyRequestMsg.marshal { serverVersion := 0x0101#16, cookie := [9, 8], messageSeq := 1#16 } =
+    .ok ({ raw := [3, 0, 0, 5, 0, 1, 0, 0, 0, 0, 0, 5, 1, 1, 2, 9, 8], serverVersion := 0x0101#16, cookie := [9, 8], messageSeq := 1#16 },
+      [3, 0, 0, 5, 0, 1, 0, 0, 0, 0, 0, 5, 1, 1, 2, 9, 8], none) := rfl
+example : clientHelloMsg.marshal { random := [1] } = .ok ({ random := [1] }, [], some Go.Error.other) := rfl
 
 end SrcEncDtlcp
 
